@@ -77,28 +77,33 @@ def unit_modes_sweep():
             return None
         # through the module-level API (reader used in a with statement) under a CID whose end-of-data check always fails: the error of the
         # first rejected row is what 'raise' raises - it is not replaced by the CheckError of the end checks (F-18)
-        def api_mode(text, mode):
+        END_RULES = {"failing": "name >= 9", "not evaluable": "name < 5 / (count - 1)"}       # the second cannot be evaluated for exactly one distinct name (division by zero -> InterfaceError at the end of the data)
+        def api_mode(text, mode, end="failing"):
             from cutplace import interface, validio, errors
-            cid = interface.create_cid_from_string("d,format,delimited\nf,id,,,1...3,Integer\nf,name,,x,...3\nc,u,IsUnique,id\nc,many,DistinctCount,name >= 9\n")
+            cid = interface.create_cid_from_string("d,format,delimited\nf,id,,,1...3,Integer\nf,name,,x,...3\nc,u,IsUnique,id\nc,many,DistinctCount,%s\n" % END_RULES[end])
             out = []; stop = None
             try:
                 for x in validio.rows(cid, io.StringIO(text), on_error=mode): out.append(("E", x.location.line + 1, x.message[:25]) if isinstance(x, errors.DataError) else ("R", x))
             except errors.CheckError as e: stop = ("END-CHECK",) if "distinct count" in e.message else ("E", e.location.line + 1, e.message[:25])
             except errors.DataError as e: stop = ("E", e.location.line + 1, e.message[:25])
+            except errors.InterfaceError as e: stop = ("END-CHECK",)          # the end-of-data expression could not be evaluated
             except Exception as e: stop = ("ESCAPED", type(e).__name__)
             return out, stop
         def api_cases():
-            for n in range(0, 4):
-                for idx in itertools.product(range(len(POOL)), repeat=n): yield [POOL[i] for i in idx]
-        def api_check(rows):
+            for end in END_RULES:
+                for n in range(0, 4):
+                    for idx in itertools.product(range(len(POOL)), repeat=n): yield (end, [POOL[i] for i in idx])
+        def api_check(c):
+            end, rows = c
             text = render("delimited", rows)
-            y, ystop = api_mode(text, "yield"); r, rstop = api_mode(text, "raise")
-            if ystop != ("END-CHECK",): return {"expected": "yield mode ends with the failing end-of-data check", "observed": ystop}
+            y, ystop = api_mode(text, "yield", end); r, rstop = api_mode(text, "raise", end)
+            if end == "failing" and ystop != ("END-CHECK",): return {"expected": "yield mode ends with the failing end-of-data check", "observed": ystop}
+            if ystop not in (None, ("END-CHECK",)): return {"expected": "yield mode ends normally or with the end-of-data check", "observed": ystop}
             first_err = next((i for i, x in enumerate(y) if x[0] == "E"), None)
-            want = (y, ("END-CHECK",)) if first_err is None else (y[:first_err], y[first_err])
+            want = (y, ystop) if first_err is None else (y[:first_err], y[first_err])
             return None if (r, rstop) == want else {"expected": "raise mode: rows %r then %r" % want, "observed": (r, rstop)}
-        api = sweep("C06/sweep/raise raises the first row error also when an end-of-data check fails (module-level rows())", api_cases(), api_check, "bounded", "delimited CID with IsUnique and an always failing DistinctCount x tables of 0-3 rows over the pool",
-                    describe=lambda c: {"rows": c}, function="validio.rows + BaseValidator.__exit__", unit="C06.modes")
+        api = sweep("C06/sweep/raise raises the first row error also when an end-of-data check fails (module-level rows())", api_cases(), api_check, "bounded", "delimited CID with IsUnique and a DistinctCount that always fails / that cannot be evaluated for one distinct value x tables of 0-3 rows over the pool",
+                    describe=lambda c: {"end-of-data check": c[0], "rows": c[1]}, function="validio.rows + BaseValidator.__exit__", unit="C06.modes")
         return [api, sweep("C06/sweep/modes agree, counters add up, container faults stop every mode", cases(), check, "bounded",
                       "delimited and fixed CIDs x header 0-2 x tables of 0-4 rows (0-5 thorough) over a pool of accepted / field-rejected / wrong-count / duplicate rows x 3 modes; unterminated quote / short fixed record injected at every row boundary of 0-3 row tables",
                       describe=lambda c: {"format": c[0], "header": c[1], "rows": c[2], "fault_before_row": c[3]}, function="validio.Reader.rows", unit="C06.modes")]
